@@ -181,6 +181,32 @@ fn recurse(expr: &Expr, fmt: &mut fmt::Formatter<'_>, prec: Precedence) -> fmt::
                 // `x of y` is a property lookup: a unit that happens to be
                 // called `of` must not follow another word directly.
                 Expr::Unit { ref name } if name == "of" => write!(fmt, "(of)"),
+                // A name that is itself an attribute word (`international`) is
+                // read as an attribute: write it the way it can be entered,
+                // as an attribute followed by the rest of the name.
+                Expr::Unit { ref name }
+                    if crate::parsing::text_query::attr_from_name(name).is_some() =>
+                {
+                    const WORDS: [&str; 13] = [
+                        "int", "UKSJJ", "UKB", "UKC", "UKK", "british", "survey", "irish", "aust",
+                        "roman", "egyptian", "greek", "olympic",
+                    ];
+                    let split = WORDS.iter().find_map(|word| {
+                        let attr = crate::parsing::text_query::attr_from_name(word)?;
+                        name.strip_prefix(attr).map(|rest| (*word, rest))
+                    });
+                    match split {
+                        Some((word, rest)) => {
+                            write!(fmt, "{} ", word)?;
+                            if rest.is_empty() {
+                                write!(fmt, "\"\"")
+                            } else {
+                                write_ident(fmt, rest)
+                            }
+                        }
+                        None => write_ident(fmt, name),
+                    }
+                }
                 Expr::Unit { ref name } => write_ident(fmt, name),
                 Expr::Quote { ref string } => {
                     write!(fmt, "'")?;
